@@ -124,8 +124,8 @@ structure Ep where
   p : P6 := ⟨fun _ => 0, fun _ => 0⟩
   ctl : SendCtl := SendCtl.init 0
   rc : RecvCtl := RecvCtl.init 0
-  snd : List (Nat × SendHalf) := []
-  rcv : List (Nat × RecvHalf) := []
+  snd : List (Nat × Sndr) := []
+  rcv : List (Nat × Rcvr) := []
 
 def lookup {α : Type} (l : List (Nat × α)) (k : Nat) : Option α := (l.find? (·.1 == k)).map (·.2)
 def update {α : Type} (l : List (Nat × α)) (k : Nat) (v : α) : List (Nat × α) :=
@@ -152,13 +152,30 @@ def rcConn (e : Ep) (n : Nat) : Ep × String :=
   | .flowControl => ({ e with rc := r' }, s!"conn=FlowControl{fr} {tail}")
   | .panic _ => ({ e with rc := r' }, "PANIC")
 
-def rxShow (e : Ep) (sid : Nat) (r : RecvHalf × RxObs) : Ep × String :=
+def rxShow (e : Ep) (sid : Nat) (r : Rcvr × RxObs) : Ep × String :=
   match r with
   | (h', .fresh n) =>
     let (e', s) := rcConn { e with rcv := update e.rcv sid h' } n
     (e', s!"fresh={n} {s}")
   | (_, .flowControl) => (e, "err=FlowControl")
   | (_, .finalSize) => (e, "err=FinalSize")
+
+/-- `Reader::poll_next` on stream `sidS`. -/
+def nextS (e : Ep) (sidS theirs : String) : Ep × Option String :=
+  let cmp (e' : Ep) (mine : String) : Ep × Option String := if mine == theirs then (e', none) else (e', some mine)
+  match sidS.toNat? with
+  | some sid =>
+    match lookup e.rcv sid with
+    | none => (e, some "BAD next: unknown stream")
+    | some h =>
+      let (h', o) := h.next
+      let e' := { e with rcv := update e.rcv sid h' }
+      match o with
+      | .half .pending => cmp e' "pending"
+      | .half (.read n none) => cmp e' s!"n={n}"
+      | .half (.read n (some m)) => cmp e' s!"n={n} frames=MSD:{sid}:{m}"
+      | .resetErr => cmp e' "err"
+  | none => (e, some "BAD next")
 
 def stepS (e : Ep) (op obs : List String) : Ep × Option String :=
   let theirs := " ".intercalate obs
@@ -179,11 +196,11 @@ def stepS (e : Ep) (op obs : List String) : Ep × Option String :=
         match kvNat obs "rwin" with
         | some rw =>
           if winOk e .loc .bi .send sw && winOk e .loc .bi .recv rw then
-            ({ e with snd := update e.snd sid (SendHalf.init sw), rcv := update e.rcv sid (RecvHalf.mk0 rw) }, none)
+            ({ e with snd := update e.snd sid (Sndr.init sw), rcv := update e.rcv sid (Rcvr.mk0 rw) }, none)
           else (e, some "window of a local bidi stream comes from neither table")
         | none => (e, some "BAD open obs")
       else
-        if winOk e .loc .uni .send sw then ({ e with snd := update e.snd sid (SendHalf.init sw) }, none)
+        if winOk e .loc .uni .send sw then ({ e with snd := update e.snd sid (Sndr.init sw) }, none)
         else (e, some "window of a local uni stream comes from neither table")
     | _, _ => (e, some "BAD open obs")
   | ["peeropen", kind, sidS] =>
@@ -197,13 +214,13 @@ def stepS (e : Ep) (op obs : List String) : Ep × Option String :=
         match kvNat obs "swin" with
         | some sw =>
           if winOk e .rem .bi .send sw && winOk e .rem .bi .recv rw then
-            cmp { e with snd := update e.snd sid (SendHalf.init sw), rcv := update e.rcv sid (RecvHalf.mk0 rw) }
+            cmp { e with snd := update e.snd sid (Sndr.init sw), rcv := update e.rcv sid (Rcvr.mk0 rw) }
               s!"sid={sid} swin={sw} rwin={rw}{fr}"
           else (e, some "window of a peer bidi stream comes from neither table")
         | none => (e, some "BAD peeropen obs")
       else
         if winOk e .rem .uni .recv rw then
-          cmp { e with rcv := update e.rcv sid (RecvHalf.mk0 rw) } s!"sid={sid} rwin={rw}{fr}"
+          cmp { e with rcv := update e.rcv sid (Rcvr.mk0 rw) } s!"sid={sid} rwin={rw}{fr}"
         else (e, some "window of a peer uni stream comes from neither table")
     | _, _ => (e, some "BAD peeropen")
   | ["write", sidS, nS] =>
@@ -211,8 +228,8 @@ def stepS (e : Ep) (op obs : List String) : Ep × Option String :=
     | some sid, some n =>
       match lookup e.snd sid with
       | some h =>
-        if h.finReq then cmp e "err"
-        else cmp { e with snd := update e.snd sid { h with written := h.written + n } } "ok"
+        if h.half.finReq || h.rst.isSome then cmp e "err"
+        else cmp { e with snd := update e.snd sid { h with half := { h.half with written := h.half.written + n } } } "ok"
       | none => (e, some "BAD write: unknown stream")
     | _, _ => (e, some "BAD write")
   | ["fin", sidS] =>
@@ -220,8 +237,9 @@ def stepS (e : Ep) (op obs : List String) : Ep × Option String :=
     | some sid =>
       match lookup e.snd sid with
       | some h =>
-        if theirs == "pending" then ({ e with snd := update e.snd sid { h with finReq := true } }, none)
-        else if theirs == "done" && h.finSent then (e, none)
+        if h.rst.isSome then cmp e "err"   -- `Sender::ResetSent`: `Err(StreamError::Reset)`
+        else if theirs == "pending" then ({ e with snd := update e.snd sid { h with half := { h.half with finReq := true } } }, none)
+        else if theirs == "done" && h.half.finSent then (e, none)
         else (e, some "pending")
       | none => (e, some "BAD fin: unknown stream")
     | none => (e, some "BAD fin")
@@ -243,7 +261,7 @@ def stepS (e : Ep) (op obs : List String) : Ep × Option String :=
             | none => (e, some "notok: frame on a stream without sending half")
             | some h =>
               match h.emit a b (fin != 0) (availFor e.ctl cap) with
-              | none => (e, some s!"notok: illegal frame; stream maxData={h.maxData} written={h.written} sentHi={h.sentHi} finReq={h.finReq} avail={availFor e.ctl cap}")
+              | none => (e, some s!"notok: illegal frame; stream maxData={h.half.maxData} written={h.half.written} sentHi={h.half.sentHi} finReq={h.half.finReq} reset={h.rst.isSome} avail={availFor e.ctl cap}")
               | some (h', charge) =>
                 let ctl' := loadCtl e.ctl cap charge
                 cmp { e with ctl := ctl', snd := update e.snd sid h' }
@@ -257,8 +275,9 @@ def stepS (e : Ep) (op obs : List String) : Ep × Option String :=
       | some h =>
         let h' := h.updateWindow m
         -- once the FIN is out the stream may have reached `DataRcvd` (all acked): no `SendBuf` left to show
-        if theirs == "ok win=-" && h.finSent then ({ e with snd := update e.snd sid h' }, none) else
-        cmp { e with snd := update e.snd sid h' } s!"ok win={h'.maxData}"
+        if theirs == "ok win=-" && (h.half.finSent || h.rst.isSome) then ({ e with snd := update e.snd sid h' }, none) else
+        if h.rst.isSome then cmp { e with snd := update e.snd sid h' } "ok win=-" else
+        cmp { e with snd := update e.snd sid h' } s!"ok win={h'.half.maxData}"
       | none => (e, some "BAD msd: unknown stream")
     | _, _ => (e, some "BAD msd")
   | ["md", mS] =>
@@ -275,10 +294,9 @@ def stepS (e : Ep) (op obs : List String) : Ep × Option String :=
       match lookup e.rcv sid with
       | none => (e, some "BAD rx: unknown stream")
       | some h =>
-        let (e1, s1) := rxShow e sid (h.rx false off len (fin != 0))
-        if s1 == theirs then (e1, none) else
-        let (e2, s2) := rxShow e sid (h.rx true off len (fin != 0))
-        if s2 == theirs then (e2, none) else (e1, some s1)
+        -- the FIN-limit fix is in the tree (36fc566): only `fixed = true` agrees
+        let (e1, s1) := rxShow e sid (h.rx true off len (fin != 0))
+        if s1 == theirs then (e1, none) else (e1, some s1)
     | _, _, _, _ => (e, some "BAD rx")
   | ["read", sidS, capS] =>
     match sidS.toNat?, capS.toNat? with
@@ -289,10 +307,64 @@ def stepS (e : Ep) (op obs : List String) : Ep × Option String :=
         let (h', o) := h.read cap
         let e' := { e with rcv := update e.rcv sid h' }
         match o with
-        | .pending => cmp e' "pending"
-        | .read n none => cmp e' s!"n={n}"
-        | .read n (some m) => cmp e' s!"n={n} frames=MSD:{sid}:{m}"
+        | .half .pending => cmp e' "pending"
+        | .half (.read n none) => cmp e' s!"n={n}"
+        | .half (.read n (some m)) => cmp e' s!"n={n} frames=MSD:{sid}:{m}"
+        | .resetErr => cmp e' "err"
     | _, _ => (e, some "BAD read")
+  | ["stop", sidS, codeS] =>
+    match sidS.toNat?, codeS.toNat? with
+    | some sid, some code =>
+      match lookup e.rcv sid with
+      | none => (e, some "BAD stop: unknown stream")
+      | some h =>
+        let (h', fr) := h.stop code
+        cmp { e with rcv := update e.rcv sid h' } (if fr then s!"ok frames=STOP:{sid}" else "ok")
+    | _, _ => (e, some "BAD stop")
+  | ["dropreader", sidS] =>
+    match sidS.toNat? with
+    | some sid =>
+      match lookup e.rcv sid with
+      | none => (e, some "BAD dropreader: unknown stream")
+      | some h => cmp { e with rcv := update e.rcv sid (h.step true false .dropReader) } "ok"
+    | none => (e, some "BAD dropreader")
+  | ["reset", sidS, finalS] =>
+    match sidS.toNat?, finalS.toNat? with
+    | some sid, some final =>
+      match lookup e.rcv sid with
+      | none => (e, some "BAD reset: unknown stream")
+      | some h =>
+        -- `recv_reset` of the current tree does not compare the final size with the stream limit
+        -- (`rfix = false`); a tree that does (`rfix = true`) is accepted as well: which of the two the
+        -- code shows is the monitor's business (`reset_over_limit_accepted`).
+        let shw (r : Rcvr × RstObs) : Ep × String :=
+          match r with
+          | (h', .sync n) =>
+            let (e', s) := rcConn { e with rcv := update e.rcv sid h' } n
+            (e', s!"sync={n} {s}")
+          | (_, .finalSize) => (e, "err=FinalSize")
+          | (_, .flowControl) => (e, "err=FlowControl")
+        let (e1, s1) := shw (h.reset false final)
+        if s1 == theirs then (e1, none) else
+        let (e2, s2) := shw (h.reset true final)
+        if s2 == theirs then (e2, none) else (e1, some s1)
+    | _, _ => (e, some "BAD reset")
+  | [op, sidS] =>
+    if op == "rstack" then cmp e "ok" else
+    if op == "next" then nextS e sidS theirs else
+    if op == "cancel" || op == "stopsending" then
+      match sidS.toNat? with
+      | some sid =>
+        match lookup e.snd sid with
+        | none => (e, some s!"BAD {op}: unknown stream")
+        | some h =>
+          -- `Sender::DataRcvd` (FIN out and everything acked; acks are C09's): nothing happens
+          if theirs == "ok" && h.half.finSent && h.rst.isNone then (e, none) else
+          let (h', fr) := h.resetNow
+          cmp { e with snd := update e.snd sid h' }
+            (match fr with | some f => s!"ok frames=RST:{sid}:{f}" | none => "ok")
+      | none => (e, some s!"BAD {op}")
+    else (e, some "BAD op")
   | _ => (e, some "BAD op")
 
 def modelS : Model Ep := { init := {}, step := stepS }
